@@ -63,6 +63,14 @@ Proof.
   rewrite Nat.sub_0_r in R. exact (R H).
 Qed.
 
+(* a range evaluator: collect of `map f` over the parallel grid, under any split tree *)
+Theorem range2d {B} (f : T * T -> B) t : admissible 0 t (nx * ny) ->
+  run_collect (pmap f D2) t (nx * ny) (root2d nx ny) = Ok (map f (seq2d O x0 x1 nx y0 y1 ny)).
+Proof.
+  intros H. pose proof (collect_mapped D2 f 0 v2 Rep2 Rep2_items Rep2_split t _ 0 (nx * ny) root2d_rep) as R.
+  rewrite Nat.sub_0_r in R. exact (R H).
+Qed.
+
 Theorem reduce2d {B} (op : B -> B -> B) (e : B) (f : T * T -> B) t :
   (forall x y z, op x (op y z) = op (op x y) z) -> (forall x, op e x = x) -> (forall x, op x e = x) ->
   admissible 0 t (nx * ny) ->
@@ -188,6 +196,20 @@ Proof.
   split.
   - intros s e n. rewrite seq1d_length. reflexivity.
   - intros. rewrite seq2d_length. unfold root2d, it2d_new, par2d_len. cbn [fst snd]. lia.
+Qed.
+
+(* for EVERY carrier (in particular binary64): the 1-D producer split along any admissible tree delivers exactly n items and
+   never panics — only the values are subject to rounding *)
+Theorem run1d_length {T} (O : ops T) (s e : T) (n : nat) t : admissible 1 t n ->
+  exists l, run (prod1d O) t (root1d s e n) = Ok l /\ length l = n.
+Proof.
+  intros H.
+  apply (run_length (prod1d O) 1 (fun p : T * T * nat => snd p)).
+  - intros [[s' e'] m]. unfold prod1d; cbn [p_items snd]. rewrite collect1d_seq. apply seq1d_length.
+  - intros [[s' e'] m] k Hk. cbn [snd] in Hk. unfold prod1d; cbn [p_split snd].
+    rewrite (proj2 (Nat.leb_le 1 k)) by lia. rewrite (proj2 (Nat.leb_le k m)) by lia. cbn [andb].
+    eexists _, _. split; [reflexivity|]. split; reflexivity.
+  - exact H.
 Qed.
 
 (* the usize arithmetic of ParIterator1D::split_at: index 0 evaluates `index - 1` (overflow: panic in debug builds) *)
